@@ -47,7 +47,8 @@ func corpus(r *core.Run, thorough bool) ([]specRef, error) {
 	}
 	// the harness' own matrix specs (parameters, bodies, security, sum types)
 	extra := map[string]string{"matrix_sum.yml": sumSpec, "matrix_same_encoding.yml": sameEncodingSpec, "matrix_maxprops.yml": maxPropsSpec,
-		"matrix_shared_response.yml": sharedResponseSpec, "matrix_mask.yml": maskSpec}
+		"matrix_shared_response.yml": sharedResponseSpec, "matrix_mask.yml": maskSpec, "matrix_mutual_recursion.yml": mutualRecursionSpec,
+		"matrix_shared_primitive_response.yml": sharedPrimitiveResponseSpec, "matrix_mask_parameters.yml": maskParametersSpec}
 	for name, text := range extra {
 		p := filepath.Join(r.Scratch, name)
 		if err := os.WriteFile(p, []byte(text), 0o644); err != nil {
@@ -148,6 +149,64 @@ paths:
 components:
   responses:
     Err: {description: err, content: {application/json: {schema: {type: object, properties: {msg: {type: string}}}}}}
+`
+
+// schemas that contain each other where only some members of the ring have something to
+// validate: whatever is derived by walking the ring must not depend on where the walk starts
+const mutualRecursionSpec = `openapi: 3.0.3
+info: {title: t, version: "1"}
+paths:
+  /n:
+    post:
+      operationId: postN
+      requestBody: {required: true, content: {application/json: {schema: {$ref: "#/components/schemas/Node"}}}}
+      responses:
+        "200": {description: ok, content: {application/json: {schema: {$ref: "#/components/schemas/Link"}}}}
+  /m:
+    post:
+      operationId: postM
+      requestBody: {required: true, content: {application/json: {schema: {$ref: "#/components/schemas/Mid"}}}}
+      responses:
+        "200": {description: ok, content: {application/json: {schema: {$ref: "#/components/schemas/Tail"}}}}
+components:
+  schemas:
+    Node: {type: object, properties: {child: {$ref: "#/components/schemas/Link"}, kind: {type: string, enum: [a, b]}}}
+    Link: {type: object, properties: {node: {$ref: "#/components/schemas/Node"}}}
+    Head: {type: object, properties: {next: {$ref: "#/components/schemas/Mid"}}}
+    Mid: {type: object, properties: {next: {$ref: "#/components/schemas/Tail"}, list: {type: array, items: {$ref: "#/components/schemas/Head"}}}}
+    Tail: {type: object, properties: {back: {$ref: "#/components/schemas/Head"}, n: {type: integer, minimum: 1}}}
+`
+
+// one components.responses entry with a primitive body used under two status codes
+const sharedPrimitiveResponseSpec = `openapi: 3.0.3
+info: {title: t, version: "1"}
+paths:
+  /a:
+    get:
+      operationId: getA
+      responses:
+        "200": {$ref: "#/components/responses/Text"}
+        "201": {$ref: "#/components/responses/Text"}
+        "202": {$ref: "#/components/responses/Text"}
+components:
+  responses:
+    Text: {description: t, content: {application/json: {schema: {type: string}}}}
+`
+
+// two mask media types that differ in their parameters only: each matches the other's mask
+const maskParametersSpec = `openapi: 3.0.3
+info: {title: t, version: "1"}
+paths:
+  /a:
+    post:
+      operationId: postA
+      requestBody:
+        required: true
+        content:
+          "application/*": {schema: {type: string, format: binary}}
+          "application/*; v=1": {schema: {type: object, properties: {a: {type: string}}}}
+      responses:
+        "200": {description: ok}
 `
 
 // a JSON media type next to a mask media type, no declared headers
